@@ -510,6 +510,13 @@ fn calc_hmac(input: &[u8], key: &[u8]) -> [u8; SHA256_DIGEST_LENGTH] {
 }
 
 fn fill_with_random_data(buffer: &mut [u8]) {
+    #[cfg(feature = "verif")]
+    {
+        if ::verif::fill(buffer) {
+            return;
+        }
+    }
+
     let mut rng = rand::thread_rng();
     for x in 0..buffer.len() {
         let value = rng.gen();
